@@ -56,6 +56,10 @@ def spec(tier):
         jobs.append(Job("hooks", "h_duplex", ["--mode=io", "--trials=%d" % nd, "--first=%d" % (i * nd)], ncpu=[None, 4, 2][i % 3], timeout=T, tag="h_duplex:io:hooks:%d" % i))
     jobs.append(Job("asan", "h_duplex", ["--mode=io", "--trials=%d" % (nd // 2), "--first=50000", "--scale=50"], timeout=600 if quick else 1800, tag="h_duplex:io:asan"))
     jobs.append(Job("hooks", "h_duplex", ["--mode=io", "--trials=%d" % nd, "--first=60000", "--sigstorm=2000"], timeout=T, tag="h_duplex:io:sigstorm"))
+    # two channels on one descriptor, operations parked on both, one channel stopped: the other's operations still complete
+    for i in range(2 if quick else 8):
+        jobs.append(Job("hooks", "h_duplex", ["--mode=siblings", "--trials=%d" % nd, "--first=%d" % (70000 + i * nd)], ncpu=[None, 4][i % 2], timeout=T, tag="h_duplex:siblings:hooks:%d" % i))
+    jobs.append(Job("asan", "h_duplex", ["--mode=siblings", "--trials=%d" % (nd // 2), "--first=80000"], timeout=600 if quick else 1800, tag="h_duplex:siblings:asan"))
     if not quick:
         add("default", 20, 500, flavor="dbg", extra=BULK, timeout=1800)
         add("default", 10, 300, flavor="asan", ncpu=2, extra=BULK, timeout=1800)
@@ -77,6 +81,7 @@ def spec(tier):
         "ecanceled_ops": 600 * k,
         "ops_after_close": 400 * k,
         "cleanup_handlers": 700 * k,
+        "sibling_channel_trials": 150 * (1 if quick else 10),
         "duplex_io_trials": 300 * (1 if quick else 10),
         "duplex_trials_outbound_exceeds_socket_buffer": 80 * (1 if quick else 10),
         "duplex_ops_with_partial_deliveries": 100 * (1 if quick else 10),
@@ -110,7 +115,10 @@ def spec(tier):
             "flight at the same time on one AF_UNIX stream socket (one channel, two channels on the descriptor, create_with_io, or the "
             "convenience calls) against a peer that dribbles the inbound stream and drains the outbound one in bursts with stalls (the "
             "send buffer fills), optionally half-closing: inbound bytes delivered to the reads in submission order are what the peer "
-            "sent, the peer received exactly the submitted writes, done once, error 0, cleanup after the handlers, everything completes")
+            "sent, the peer received exactly the submitted writes, done once, error 0, cleanup after the handlers, everything completes; "
+            "--mode=siblings parks operations of one direction on two channels of one descriptor (empty / full pipe or socket), stops "
+            "one channel (its operations complete with ECANCELED and move no byte) and then makes the descriptor ready: the other "
+            "channel's operations complete with exactly the bytes fed / drained")
     opts = {
         "assumptions": [
             "ordering of completions is only judged on serial handler queues (on concurrent/global queues the byte ranges alone show that the I/O was performed in submission order)",
